@@ -153,6 +153,27 @@ fn main() {
     m.node("Pow", &["x", "e"], &["v"], vec![]);
     cases.push(("pow-exponent-rank", "shape:Pow:one-element-exponent-of-higher-rank", m.finish()));
 
+    let pool = |shape: &[usize], dims: Vec<Dim>, k: i64, st: i64, pads: [i64; 2]| {
+        let mut m = M::new();
+        m.input_f32("x", dims, shape);
+        m.node(
+            "MaxPool",
+            &["x"],
+            &["y"],
+            vec![("kernel_shape", Attr::Ints(vec![k])), ("strides", Attr::Ints(vec![st])), ("pads", Attr::Ints(pads.to_vec())), ("ceil_mode", Attr::Int(1))],
+        );
+        m.node("Shape", &["y"], &["s"], vec![]);
+        m.finish()
+    };
+    cases.push((
+        "pool-ceil-end-padding",
+        "shape:Pool:ceil_mode-window-entirely-in-end-padding",
+        pool(&[1, 1, 1], vec![Dim::Fixed(1), Dim::Fixed(1), Dim::Fixed(1)], 1, 1, [0, 2]),
+    ));
+    cases.push(("pool-ceil-empty-input", "eval:Div:negative-numerator-truncates", pool(&[1, 1, 0], vec![Dim::Fixed(1), Dim::Fixed(1), sym("h")], 1, 2, [0, 1])));
+    // not a finding: the configuration that exposes a ceil_mode clamp which ignores the start padding
+    cases.push(("pool-ceil-start-padding-guard", "(passes) k=3 s=2 pads=[1,1] in=10 -> 6", pool(&[1, 1, 10], vec![Dim::Fixed(1), Dim::Fixed(1), sym("h")], 3, 2, [1, 1])));
+
     let dir = vcore::verif_root().join("regressions").join("C10");
     std::fs::create_dir_all(&dir).unwrap();
     for (name, sig, built) in cases {
